@@ -304,11 +304,31 @@ def check_md_lookup(ctx):
             apps = [c for c in A.walk_local(l) if isinstance(c, ast.Call) and isinstance(c.func, ast.Attribute) and c.func.attr == "append"]
             ok = len(calls) == 1 and A.src(calls[0].args[0]) == "%s[%s]" % (arg, i) and A.src(calls[0].args[1]) == arrn and len(apps) == 1 \
                 and all(p.end == "fall" and sum(1 for s in p.stmts() for c in A.walk_local(s) if c in apps) == 1 for p in P.loop_body_paths(l))
+    comp_stmt = None
+    if not loops:
+        # the same as one expression: [get_bin_on_value_1d(arg[i], e) for i, e in enumerate(edges)], returned (or bound and returned)
+        comps = [c for c in A.walk_local(fn) if isinstance(c, ast.ListComp)]
+        if len(comps) == 1 and len(comps[0].generators) == 1 and not comps[0].generators[0].ifs:
+            g = comps[0].generators[0]
+            e = comps[0].elt
+            if isinstance(g.iter, ast.Call) and A.call_name(g.iter) == "enumerate" and len(g.iter.args) == 1 and A.src(g.iter.args[0]) == edges \
+                    and isinstance(g.target, ast.Tuple) and len(g.target.elts) == 2 and isinstance(e, ast.Call) \
+                    and A.call_name(e) == "get_bin_on_value_1d" and len(e.args) == 2:
+                i, arrn = [A.src(x) for x in g.target.elts]
+                ok = A.src(e.args[0]) == "%s[%s]" % (arg, i) and A.src(e.args[1]) == arrn
+                comp_stmt = A.enclosing(comps[0], (ast.stmt,))
+                rets = [r for r in A.walk_local(fn) if isinstance(r, ast.Return)]
+                ok = ok and (isinstance(comp_stmt, ast.Return) or (isinstance(comp_stmt, ast.Assign) and len(comp_stmt.targets) == 1 and any(
+                    r.value is not None and A.src(comp_stmt.targets[0]) == A.src(r.value) and r.lineno > comp_stmt.lineno for r in rets)))
+        elif comps:
+            ctx.unknown("C06-e", fn, "get_bin_on_value builds the indices with `%s`, a form the rule does not read" % A.short(comps[0], 60))
+            return
     ctx.check("C06-e", ok, fn, "get_bin_on_value does not append get_bin_on_value_1d(arg[i], edges[i]) once per dimension in order",
               detail="one 1-d lookup per dimension, arg[i] paired with edges[i]", construct="md-lookup")
     raises = [r for r in A.walk_local(fn) if isinstance(r, ast.Raise)]
     okr = len(raises) == 1 and isinstance(raises[0].exc, ast.Call) and res.canon(raises[0].exc.func) == "lena.core.exceptions.LenaValueError" \
-        and len(loops) == 1
+        and (len(loops) == 1 or comp_stmt is not None)
+    is_lookup = (lambda e: e[0] == "iter" and e[1] is loops[0]) if loops else (lambda e: e[0] == "stmt" and e[1] is comp_stmt)
     if okr:
         # polarity- and orientation-independent: the raise is reached under the mismatch, the loop only after it was refuted
         mism = A.norm_src(ast.parse("len(%s) != len(%s)" % (arg, edges)).body[0].value)
@@ -332,8 +352,8 @@ def check_md_lookup(ctx):
             i = p.index(raises[0])
             if i >= 0:
                 n_raise += 1
-                okr = okr and decided(p, i, True) and not any(e[0] == "iter" and e[1] is loops[0] for e in p.ev[:i])
-            its = [k for k, e in enumerate(p.ev) if e[0] == "iter" and e[1] is loops[0]]
+                okr = okr and decided(p, i, True) and not any(is_lookup(e) for e in p.ev[:i])
+            its = [k for k, e in enumerate(p.ev) if is_lookup(e)]
             if its:
                 n_loop += 1
                 okr = okr and decided(p, its[0], False)
